@@ -85,3 +85,57 @@ func H_C03_lines() {
 	}
 	vReach("end")
 }
+
+//verif:witness H_C03_rolling end
+//verif:bound C03 all rolling-file sink: 2 goroutines x 1 event through one sync logger into a RollingFileAppender (text layout) under the symbolic clock (interval 1 s, readings within 1000 s, stall rule of C13), pre-emption at every visible operation with at most 2 pre-emptive switches; every event's line must be in exactly one file, whole
+//verif:engine-only H_C03_rolling
+
+// H_C03_rolling: concurrent events into a rotating file: none lost, none torn, none duplicated.
+func H_C03_rolling() {
+	vOpt("loop", 400)
+	vOpt("schedall", 1)
+	vOpt("preempt", 2)
+	vClockMode(1)
+	vClockWindow(1000)
+	vClockStall(1)
+	root := vFSRoot()
+	defer vFSCleanup()
+	dir := root + "/logs"
+	vFSMkdir(dir)
+	ts := time.Unix(1700000000, 0)
+	TimeNow = func(ctx context.Context) time.Time { return ts }
+	savedCaller := enableCaller
+	enableCaller = false
+	defer func() { TimeNow = nil; enableCaller = savedCaller }()
+	lay := &TextLayout{BaseLayout{FileLineLength: 48}}
+	app := &RollingFileAppender{Layout: lay, FileDir: dir, FileName: "r", Rotation: TimeRotation{Interval: time.Second}, MaxAge: 168}
+	if err := app.Start(); err != nil {
+		panic(err)
+	}
+	all := LevelRange{MinLevel: NoneLevel, MaxLevel: MaxLevel}
+	logger := &SyncLogger{LoggerBase: LoggerBase{Name: "s", Level: all}}
+	logger.AppenderRefs.AppenderRefs = []*AppenderRef{{Appender: app, Level: all}}
+	tag := &Tag{tag: "_t_x", logger: logger}
+	msgs := [2]string{"first-event", "second-event"}
+	want := [2][]byte{vExpectedLine(lay, ts, msgs[0]), vExpectedLine(lay, ts, msgs[1])}
+	done := make(chan int, 2)
+	for g := 0; g < 2; g++ {
+		go func(g int) {
+			Info(context.Background(), tag, Msg(msgs[g]))
+			done <- 1
+		}(g)
+	}
+	<-done
+	<-done
+	app.Stop()
+	var content []byte
+	for _, n := range vFSNames(dir) {
+		c, _ := vFSRead(dir, n)
+		content = append(content, c...)
+	}
+	vAssert(len(content) == len(want[0])+len(want[1]), "exactly-the-two-lines-are-in-the-files")
+	for g := 0; g < 2; g++ {
+		vAssert(vContains(content, string(want[g])), "each-event-yields-its-own-complete-line-in-a-file")
+	}
+	vReach("end")
+}
